@@ -157,7 +157,7 @@ fn lib_body(rng: &mut Rng, prefix: &str, n_syms: usize) -> (String, Vec<String>)
 /// occurrences of the same undefined name in several files, several imported
 /// files each with a parse error, missing files.
 pub fn gen_hash_project(rng: &mut Rng, k: u64) -> Project {
-    let kind = rng.weighted(&[5, 6, 4, 3, 3, 3, 2]);
+    let kind = rng.weighted(&[5, 6, 4, 3, 3, 3, 2, 3]);
     let mut p = Project::new("");
     p.toml = toml_for(rng);
     let n_libs = rng.range(2, 4);
@@ -292,6 +292,20 @@ pub fn gen_hash_project(rng: &mut Rng, k: u64) -> Project {
             );
             if rng.chance(1, 3) {
                 main.push_str("    lda undefined_in_banks\n    lda undefined_in_banks\n");
+            }
+        }
+        // the same library imported twice with a wildcard: every one of its symbols clashes, which one is reported?
+        7 => {
+            p.label = format!("gen{}:duplicate_imports", k);
+            main.push_str("start:\n    rts\n");
+            let dup = rng.below(n_libs);
+            for i in 0..n_libs {
+                main.push_str(&format!(".import * from \"lib{}.asm\"\n", i));
+            }
+            main.push_str(&format!(".import * from \"lib{}.asm\"\n", dup));
+            if rng.chance(1, 2) {
+                let other = (dup + 1) % n_libs;
+                lib_texts[other].push_str(&format!(".import * from \"lib{}.asm\"\n", dup));
             }
         }
         // macros across files + loops, with several uses of an undefined name inside macro expansions
